@@ -31,8 +31,9 @@ Oracle conventions (what "the same API" means, written from the statement and th
 * values are stored as far as the format allows: enum values in 32 bits with a sign flag,
   closure/destroy in a signed byte, counts and indices in 16 bits -- inputs beyond are outside.
 QUIRKS are named deviations of the unchanged compiler from these rules (each one a reported,
-still unrepaired finding); `expected_api(..., quirks=set)` can apply them so that the harness can
-tell a pending finding from a new failure.  The oracle itself (quirks=()) follows the schema only;
+still unrepaired finding with a descriptive key); `expected_api(..., quirks=set)` can apply them so
+that the harness can tell a known finding (the decoded API equals the schema API with exactly that
+deviation applied) from a new failure (any other difference).  The oracle itself (quirks=()) follows the schema only;
 defects that /repo has repaired are NOT emulated any more -- their minimal inputs stay in
 corpus/C06/02-findings.json and 04-fix-neighbours.json as regression cases.
 """
@@ -115,8 +116,12 @@ SCOPES = {'call': 1, 'async': 2, 'notified': 3, 'forever': 4}
 ARRAY_KINDS = {'GLib.Array': 1, 'GLib.PtrArray': 2, 'GLib.ByteArray': 3}
 
 QUIRKS = {
-    'field-bits-dropped':
-        'girnode.c G_IR_NODE_FIELD: FieldBlob.bits is always written 0, the bits attribute is lost',
+    # name -> (key reported through ctx.report_failure, description)
+    'attribute-after-type-child': (
+        'attribute-after-type-child:attached-to-enclosing-node',
+        'girparser.c end_type clears ctx->current_typed: an <attribute> that FOLLOWS the <type>/<array>/<callback> child '
+        'of a <parameter>, <return-value>, <field>, <property> or class-level <constant> is attached to the enclosing '
+        'function / type instead of to that element (every other member of the API is as the GIR says)'),
 }
 
 
@@ -133,6 +138,7 @@ class Oracle(object):
             self._scan_aliases(ET.fromstring(text))
         self._scan_aliases(self.root)
         self.xrefs = []
+        self.parent = {c: p for p in self.root.iter() for c in p}
 
     def _scan_aliases(self, root):
         nsel = root.find(q('namespace'))
@@ -162,10 +168,48 @@ class Oracle(object):
     def introspectable(self, el):
         return not (el.get('introspectable') == '0') and el.get('shadowed-by') is None
 
+    TYPELIKE = ('type', 'array', 'varargs', 'callback')
+
+    def _leaked(self, el):
+        """the <attribute> children of `el` that the pending deviation 'attribute-after-type-child' moves to the
+        enclosing node: those that follow the type-like child of a parameter, return value, field, property or
+        class-level constant (a namespace-level constant is its own node: nothing moves)"""
+        if 'attribute-after-type-child' not in self.quirks:
+            return []
+        tag = el.tag
+        par = self.parent.get(el)
+        if not (tag in (q('parameter'), q('return-value'), q('field'), q('property')) or
+                (tag == q('constant') and par is not None and par.tag in (q('class'), q('interface')))):
+            return []
+        typelike = [q(t) for t in self.TYPELIKE]
+        seen, out = False, []
+        for c in el:
+            if c.tag in typelike:
+                seen = True
+            elif c.tag == q('attribute') and seen:
+                out.append(c)
+        return out
+
     def attrs_of(self, el):
+        """the attributes of `el`: its <attribute> children (a later one replaces an earlier one of the same
+        name).  Under the pending deviation, the leaked attributes of its members are inserted into the same
+        table in document order, and its own leaked ones are missing."""
         out = {}
-        for a in el.findall(q('attribute')):
-            out[a.get('name')] = a.get('value')
+        gone = self._leaked(el)
+        quirk = 'attribute-after-type-child' in self.quirks
+        members = (q('return-value'), q('parameter'), q('field'), q('property'), q('constant'))
+        for c in el:
+            if c.tag == q('attribute'):
+                if not any(c is g for g in gone):
+                    out[c.get('name')] = c.get('value')
+            elif quirk and c.tag in members and (c.tag in members[:2] or self.introspectable(c)):
+                for a in self._leaked(c):
+                    out[a.get('name')] = a.get('value')
+            elif quirk and c.tag == q('parameters'):
+                for p in c:
+                    if p.tag == q('parameter'):
+                        for a in self._leaked(p):
+                            out[a.get('name')] = a.get('value')
         return sorted([k, v] for k, v in out.items())
 
     def resolve_alias(self, name):
@@ -334,7 +378,7 @@ class Oracle(object):
         r = el.get('readable')
         f['readable'] = r is None or r == '1'
         f['writable'] = el.get('writable') == '1'
-        f['bits'] = 0 if 'field-bits-dropped' in self.quirks else int(el.get('bits', '0')) & 0xFF
+        f['bits'] = int(el.get('bits', '0')) & 0xFF
         return f
 
     def x_property(self, el):
@@ -1285,7 +1329,26 @@ class Gen(object):
         elif r < 0.85:
             a.append(('c:prefix', self.ns))
         nsel = E('namespace', a, self.top)
+        self.reorder_attributes(nsel)
         return nsel
+
+    AFTER_TYPE_TAGS = ('parameter', 'return-value', 'field', 'property', 'constant')
+
+    def reorder_attributes(self, el):
+        """now and then the <attribute> children of a parameter / return value / field / property / constant are
+        written AFTER its type (or callback) child -- valid by the schema (the children are interleaved), though
+        the scanner writes them first"""
+        for c in el.children:
+            self.reorder_attributes(c)
+        if el.tag in self.AFTER_TYPE_TAGS:
+            at = [c for c in el.children if c.tag == 'attribute']
+            ty = [i for i, c in enumerate(el.children) if c.tag in ('type', 'array', 'callback')]
+            if at and ty and self.p(0.025):
+                moved = at if self.p(0.6) else at[len(at) // 2:]
+                rest = [c for c in el.children if not any(c is m for m in moved)]
+                k = max(i for i, c in enumerate(rest) if c.tag in ('type', 'array', 'callback')) + 1
+                el.children = rest[:k] + moved + rest[k:]
+                self.hit('attributes:after-type:' + el.tag)
 
     def describe(self):
         return {'ns': self.ns, 'version': self.version, 'names': {k: list(v) for k, v in self.names.items()}}
@@ -1305,18 +1368,11 @@ import sys
 from core import REPO, VERIF, Counter, HarnessError
 
 PENDING_FINDINGS = {
-    # key -> what (each is reported through ctx.report_failure; see the final report of this check
-    # for the exact replays and the proposed patches)
-    'quirk:' + k: v for k, v in QUIRKS.items()
+    # key -> what.  Each key names a CLASS of inputs recognised by the classifier (explain_with_quirks): the decoded API
+    # must equal the schema API with exactly that named deviation applied; any other difference is a VIOLATION.
+    # (the keys are listed in /verif/known_findings.json; see the final report of this check for replay and patch)
+    key: what for key, what in QUIRKS.values()
 }
-# exact failing inputs (key = api:<sha1 of the GIR text, 12 hex digits>:api), kept in corpus/C06/05-pending.json
-PENDING_FINDINGS.update({
-    'api:2c679831781b:api':
-        'girparser.c end_type clears ctx->current_typed: an <attribute> that FOLLOWS the <type> (or <callback>) child '
-        'of a <parameter>, <return-value>, <field>, <property> or class-level <constant> is attached to the '
-        'enclosing function / class instead (corpus case P1; the generator writes <attribute> before the type, '
-        'as the scanner does)',
-})
 
 TRANSFER = {(False, False): 'none', (False, True): 'container', (True, False): 'full', (True, True): 'full+container'}
 
@@ -2181,7 +2237,7 @@ class Judge(object):
             cnt.hit('api:equal-modulo-pending-findings')
             for k in sub:
                 cnt.hit('finding:' + k)
-                ctx.report_failure('quirk:' + k, QUIRKS[k] + ' -- e.g. ' + d0[0][:200], replay_obj(case))
+                ctx.report_failure(QUIRKS[k][0], QUIRKS[k][1] + ' -- e.g. ' + d0[0][:200], replay_obj(case))
         else:
             cnt.hit('fail:api-differs')
             exp_q = expected_api(case['gir'], case.get('deps', ()), case.get('shlib_option'), quirks=QUIRKS.keys())
@@ -2434,7 +2490,7 @@ def run(ctx):
     deps = [make_dep(rng, i) for i in range(ctx.n(3, 12))]
     dep_cases = [{'ns': d['ns'], 'version': d['version'], 'gir': d['gir'], 'deps': [], 'dep_ids': [], 'shlib_option': None,
                   'cover': d['cover'], 'origin': 'generated'} for d in deps]
-    n_cases = ctx.n(150, 4000)
+    n_cases = ctx.n(150, 2500)
     cases = [make_case(rng, i, deps) for i in range(n_cases)]
     lims = limit_cases(rng, ctx.tier)
     gen_cover = {}
@@ -2508,7 +2564,7 @@ def run(ctx):
                 finally:
                     shutil.rmtree(d, ignore_errors=True)
 
-            san_cases = (corpus + dep_cases + cases)[:600]
+            san_cases = (corpus + dep_cases + cases)[:300]
             with concurrent.futures.ThreadPoolExecutor(max_workers=max(4, min(16, os.cpu_count() or 8))) as ex:
                 san_out = list(ex.map(san_one, san_cases))
             nsan = len(san_out)
@@ -2553,8 +2609,9 @@ def run(ctx):
         'a failure after parsing (abort, g_error, failed self-validation) is a failure of the property',
         'values outside the format\'s widths (enum values beyond 32 bits, closure/destroy beyond a signed byte, counts and '
         'indices beyond 16 bits, property/method indices beyond 10 bits) are not generated',
-        'the generator writes <attribute> children before the <type>/<callback> child of their element, as the scanner '
-        'does; the other order (valid by the schema) is the pending finding of corpus case P1',
+        'documents in which an <attribute> follows the <type>/<callback> child of its parameter / return value / field / '
+        'property / class constant (generated now and then; corpus case P1) are judged against the schema API with '
+        'exactly the known deviation attribute-after-type-child applied: any other difference is a violation',
         'vfunc must-chain-up/override/is-class-closure/offset and signal has-class-closure are not GIR schema attributes '
         '(docs/gir-1.2.rnc) and are not generated; async-func/sync-func/finish-func are not read by this compiler version',
     ])
